@@ -726,6 +726,10 @@ class Interp:
         n = self.cond_counter.get(txt, 0)
         self.cond_counter[txt] = n + 1
         key = (kind, txt, n)
+        if kind == "c" and isinstance(v, CondV) and v.op in _PYOPS and _exact_operand(v.a) and _exact_operand(v.b):
+            # an exact comparison the interpreter cannot refine (too many source bits): remembered, so that the feasibility of a
+            # path through it can be established later by a concrete witness (path_witness)
+            COND_INFO[key] = v
         if key in self.asg:
             return bool(self.asg[key])
         raise Split([key])
@@ -1186,7 +1190,10 @@ class Interp:
         if isinstance(op, (ast.Is, ast.IsNot)):
             if a is None or b is None:
                 known = (a is None and b is None)
-                if (a is None) != (b is None) and not isinstance(a if b is None else b, (Sym, Lin)):
+                other = a if b is None else b
+                # results of string formatting / arithmetic are objects, never None
+                definite = not isinstance(other, (Sym, Lin)) or isinstance(other, Lin) or (isinstance(other, Sym) and other.op in _STR_OPS + ("floatMult", "float"))
+                if (a is None) != (b is None) and definite:
                     return known if isinstance(op, ast.Is) else not known
                 if a is None and b is None:
                     return isinstance(op, ast.Is)
@@ -2135,6 +2142,67 @@ for _n in ("abs", "min", "max", "str", "float", "bool", "hex", "sorted", "list",
 
 
 # ---------------------------------------------------------------------------
+COND_INFO = {}   # choice key ('c', text, n) -> CondV of an exact but unrefinable comparison
+_PYOPS = {"Eq": lambda x, y: x == y, "NotEq": lambda x, y: x != y, "Lt": lambda x, y: x < y, "LtE": lambda x, y: x <= y,
+          "Gt": lambda x, y: x > y, "GtE": lambda x, y: x >= y}
+
+
+def _exact_operand(x):
+    return (isinstance(x, int) and not isinstance(x, bool)) or (isinstance(x, Bits) and not x.has_top())
+
+
+def path_witness(asg):
+    """asg: an explored path's assignment.  None if the path has no opaque choice.  Otherwise: a concrete assignment of all source bits
+    that is consistent with the pinned bits and makes every exact-but-unrefinable comparison on the path come out as it was taken
+    (the path is feasible), or False when some choice is truly opaque or no witness was found among the candidates tried."""
+    cks = [k for k in asg if isinstance(k, tuple) and k and k[0] == "c"]
+    if not cks:
+        return None
+    conds = []
+    for k in cks:
+        c = COND_INFO.get(k)
+        if c is None:
+            return False
+        conds.append((c, bool(asg[k])))
+    pinned = {k: v for k, v in asg.items() if isinstance(k, tuple) and k and k[0] == "s"}
+    srcs = []
+    for c, _ in conds:
+        for x in (c.a, c.b):
+            if isinstance(x, Bits):
+                for sk in x.subst(pinned).sources():
+                    if sk not in srcs and sk not in pinned:
+                        srcs.append(sk)
+
+    def val(x, env):
+        return x if isinstance(x, int) else x.subst(env).value()
+
+    cands = [dict.fromkeys(srcs, 0), dict.fromkeys(srcs, 1)]
+    seed = 0x9E3779B97F4A7C15
+    for _ in range(96):
+        seed = (seed * 6364136223846793005 + 1442695040888963407) & (2 ** 64 - 1)
+        r = seed
+        env = {}
+        for sk in srcs:
+            r = (r * 6364136223846793005 + 1442695040888963407) & (2 ** 64 - 1)
+            env[sk] = (r >> 33) & 1
+        cands.append(env)
+    # single-bit variations of the extremes reach thresholds such as x > 2**k
+    for base in (0, 1):
+        for sk in srcs[:64]:
+            env = dict.fromkeys(srcs, base)
+            env[sk] = 1 - base
+            cands.append(env)
+    for env in cands:
+        full = dict(pinned)
+        full.update(env)
+        try:
+            if all(_PYOPS[c.op](val(c.a, full), val(c.b, full)) == want for c, want in conds):
+                return full
+        except Exception:
+            return False
+    return False
+
+
 ON_PATH = None   # callback(asg | None): told which explored path a consumer is looking at (report.Ctx.path)
 
 
